@@ -11,7 +11,7 @@ from .c12_streams import NEST
 
 
 def overflows(entry, fam, d, stack):
-    a = probe([{"entry": entry, "src": NEST[fam](d), "stack_mb": stack}], cap_each=120, cap_base=120, shards=1)[0]
+    a = probe([{"entry": entry, "src": NEST[fam](d), "stack_mb": stack}], cap_ms=60000, shards=1)[0]
     return "abort" in a and "overflowed its stack" in a.get("stderr", "")
 
 
@@ -33,9 +33,11 @@ def main():
     out = {}
     for stack in (8, 64):
         out[stack] = {}
-        for entry in ("tokens", "pl", "fmt", "rq", "compile"):
+        for entry in ("tokens", "pl", "rq", "compile"):   # fmt: exponential time long before the stack matters (finding H2)
             out[stack][entry] = {}
             for fam in NEST:
+                if fam.startswith("open-") or fam in ("quotes-open", "at", "dots", "close-paren"):
+                    continue
                 cap = hi if fam not in ("group", "loop", "joins", "lets", "appends", "transforms", "filters") else min(hi, 3000)
                 r = first_overflow(entry, fam, stack, cap)
                 if r is not None:
